@@ -1115,6 +1115,10 @@ func init() {
 						}
 						return &Mismatch{Step: i, Kind: "mismatch", Got: out, Exp: strings.Join(allowed, "|"), Note: note}
 					}
+					// a container can be decoded as often as its holder likes: the same bytes, in the same buffer, decode to the same outcome
+					if out2, why2 := kcOutcome(key, blob, der, pw, unwrap); out2 != out {
+						return &Mismatch{Step: i, Kind: "mismatch", Got: out2, Exp: out, Note: "second decode of the same container buffer: " + why2}
+					}
 				}
 			case "pubhex":
 				var pub []byte
